@@ -10,7 +10,7 @@
 EXTENDS Base, SequencesExt
 
 cLF == 10  cCR == 13
-IsWs(c) == c \in {9, 10, 11, 12, 13, 32}
+IsWs(c) == c \in {9, 10, 11, 12, 13, 28, 29, 30, 31, 32, 133, 160, 8232, 8233}      \* what str.strip() removes (subset in use)
 IsEol(c) == c \in {cLF, cCR}
 
 RECURSIVE StripL(_)
